@@ -55,10 +55,10 @@ func BuildTLCP(e EPConfig, reg *Registry) *tlcp.Config {
 	c := &tlcp.Config{
 		Time:               func() time.Time { return e.Clock() },
 		Certificates:       CertsTLCP(e.Ident),
-		NextProtos:         e.ALPN,
+		NextProtos:         copyStrings(e.ALPN),
 		ServerName:         e.ServerName,
 		InsecureSkipVerify: e.Insecure,
-		CipherSuites:       e.Suites,
+		CipherSuites:       copyU16(e.Suites),
 		ClientAuth:         tlcp.ClientAuthType(e.Auth),
 		MinVersion:         e.MinVersion,
 		MaxVersion:         e.MaxVersion,
